@@ -100,6 +100,10 @@ func (cr ConsoleReporter) Submit(summary Summary) (err error) {
 					lines := strings.Split(content, "\n")
 					nrFmt := fmt.Sprintf("%%%dd", digits)
 					for i := report.Problem.Lines.First; i <= report.Problem.Lines.Last; i++ {
+						if i < 1 || i > len(lines) {
+							// never index outside the file (lines counted differently by yaml, e.g. lone CR breaks)
+							continue
+						}
 						buf.WriteString(output.MaybeColor(output.White, cr.noColor, fmt.Sprintf(nrFmt+" | %s\n", i, lines[i-1])))
 					}
 					buf.WriteString(strings.Repeat(" ", digits+3))
